@@ -98,14 +98,16 @@ def random_case(rng, tier):
             pauses.append(boundary)
             if rng.random() < 0.7:
                 crash_paused.append(boundary)
-    pause_in_step, crash_on_paused = [], []
+    pause_in_step, crash_on_paused, crash_on_played = [], [], []
     if rng.random() < 0.3:
         # a pause requested from inside a step function is carried out together with the transition that follows the
         # step; the checkpoint is written when the listeners are told that the process is paused
         pause_in_step = sorted({rng.randint(1, max(boundaries, 1)) for _ in range(rng.randint(1, 2))})
-        crash_on_paused = sorted({rng.randint(1, 3) for _ in range(rng.randint(1, 2))})
+        crash_on_paused = sorted({rng.randint(1, 3) for _ in range(rng.randint(0, 2))})
+        crash_on_played = sorted({rng.randint(1, 3) for _ in range(rng.randint(0, 1))})
     return {'program': program, 'crashes': crashes, 'media': media, 'loader': rng.choice(['default', 'default', 'custom']),
-            'pauses': pauses, 'crash_paused': crash_paused, 'pause_in_step': pause_in_step, 'crash_on_paused': crash_on_paused}
+            'pauses': pauses, 'crash_paused': crash_paused, 'pause_in_step': pause_in_step, 'crash_on_paused': crash_on_paused,
+            'crash_on_played': crash_on_played}
 
 
 def shrink(case):
@@ -113,7 +115,7 @@ def shrink(case):
         candidate = copy.deepcopy(case)
         del candidate['crashes'][key]
         yield candidate
-    for key in ('pauses', 'crash_paused', 'pause_in_step', 'crash_on_paused'):
+    for key in ('pauses', 'crash_paused', 'pause_in_step', 'crash_on_paused', 'crash_on_played'):
         for i in range(len(case.get(key) or [])):
             candidate = copy.deepcopy(case)
             del candidate[key][i]
@@ -156,7 +158,8 @@ def run(case):
     seams.begin_case()
     runner = persist.RestartRun(case['program'], case.get('crashes'), case.get('media'), case.get('loader', 'default'),
                                 pauses=case.get('pauses'), crash_paused=case.get('crash_paused'),
-                                pause_in_step=case.get('pause_in_step'), crash_on_paused=case.get('crash_on_paused'))
+                                pause_in_step=case.get('pause_in_step'), crash_on_paused=case.get('crash_on_paused'),
+                                crash_on_played=case.get('crash_on_played'))
     try:
         proc = runner.run()
         if runner.runaway is not None:
